@@ -25,7 +25,19 @@ theorem tie_no_residue (rw : Nat) (hrw : 1 ≤ rw) (s : State) (hr : (M Nv.Gen.C
     (hh : (s k).holders = []) (hw : (s k).waiters = []) : (s k).present = false :=
   sem_no_residue _ tie_cfg_proved rw hrw s hr k hh hw
 
+/-- the full sharded-map theorem at the regenerated configuration: token bound, one-writer-or-readers shape,
+    a key is unknown to every shard it does not route to, and no residue in any shard -/
 theorem tie_wide (rw : Nat) (hrw : 1 ≤ rw) (idx : Key → Nat) (ws : WState)
-    (hr : (MW Nv.Gen.C01.cfg rw idx).Reach ws) (k : Key) : wsum (ws (idx k) k).holders ≤ rw :=
-  (sem_wide _ tie_cfg_proved rw hrw idx ws hr k).1
+    (hr : (MW Nv.Gen.C01.cfg rw idx).Reach ws) (k : Key) :
+    wsum (ws (idx k) k).holders ≤ rw ∧
+    ((∃ t, (ws (idx k) k).holders = [(t, rw)]) ∨
+      ((∀ h ∈ (ws (idx k) k).holders, h.2 = 1) ∧ (ws (idx k) k).holders.length ≤ rw)) ∧
+    (∀ i, i ≠ idx k → ws i k = KS.init) ∧
+    ((ws (idx k) k).holders = [] → (ws (idx k) k).waiters = [] → ∀ i, (ws i k).present = false) :=
+  sem_wide _ tie_cfg_proved rw hrw idx ws hr k
+
+/-- a sharded run of today's code is a run of the single map (so every single-map theorem transfers) -/
+theorem tie_wide_refines (rw : Nat) (idx : Key → Nat) (ws : WState)
+    (hr : (MW Nv.Gen.C01.cfg rw idx).Reach ws) : (M Nv.Gen.C01.cfg rw).Reach (wproj idx ws) :=
+  sem_wide_refines _ rw idx ws hr
 end Nv.C01
